@@ -1,12 +1,163 @@
 import JSight.Model.Scanner
+import JSight.Proofs.ScanLex
 import JSight.Proofs.ScanTrivia
+import JSight.Proofs.ScanTriviaRun
+/-!
+# C14, last clause — user content is never silently dropped
+
+"Every byte that belongs to no lexeme is whitespace, a line end, comment text or an annotation delimiter."
+
+Theorems about the model of `Scanner.Next()` (`byteStep`, `lexAll`, `scanFile` over the regenerated scanner
+table `Gen.code`).  Method (`Proofs/ScanTrivia.lean`, `Proofs/ScanTriviaRun.lean`):
+
+* a second abstract interpreter `tRun` of the table: per byte step it tracks whether the byte of the step
+  ends up inside a lexeme (open Begin / completed item), and at every `return nil` the Bool check `doneOK`
+  demands that a byte which does not is trivia: a blank / line end, `'#'` moving into the comment
+  sub-machine, a byte read inside the comment sub-machine, `'/'` moving to the annotation-sign state, `'/'`
+  or `'*'` read in the annotation-sign state, or the `'/'` of the closing `*/` of a multi-line annotation
+  (`found(AnnotationEnd)` two bytes back, allowed only under `prevIsStar`);
+* the comment sub-machine `commentStates` is COMPUTED from the table (closure of the targets of the
+  `stepStack.Push(s.step)` leaves); `doneOK` also checks that it is entered from outside only on `'#'`,
+  and the annotation-sign state only on `'/'`;
+* the table theorems below evaluate the checks by `decide +kernel` on the CURRENT table, with the certificate
+  of `ScanLex` (C14, which Begin event is open per state) resp. of `ScanSafe` (C01);
+* `ScanTriviaRun` proves, generically in the table, that the checks imply the coverage invariant `TrInv`
+  of every configuration of a run, and the shape of the event queue between calls of `Next`.
+
+## Exceptions (everything the statements had to make room for)
+
+* `eofExceptions = []` — NO exception.  The list (and the disjunct `EofInException` of the helper lemmas) was
+  needed for a GENUINE DEFECT of the Go scanner that these checks found: `stateRegexBodyAfterSlash` ignored
+  its byte, also the end of input.  Input `TYPE @a regex⏎/ab\` (no final newline): `Next` reported a clean
+  end of the lexeme stream after `TYPE`, `@a`, `regex`; the Text lexeme opened by `/` was never closed and
+  never reported (the core then said "empty body").  Fixed in /repo ("report the end of input after a
+  backslash inside a regex body"); with the unfixed table `silent_steps_are_trivia` and
+  `eof_closes_or_rejects` fail for exactly that state.
+* no other state silently consumes a non-trivia byte: `silentOK` holds for all 160 states with exactly the
+  classes of `Skipped`.
+* the `'/'` after `GET /a ` is at first only a *candidate* annotation opener: when the next byte is neither
+  `'/'` nor `'*'` the scanner rewinds and re-reads it as the start of a parameter.  `Skipped.annotOpen1`
+  therefore demands the second byte, and the one-step theorem has the disjunct "the scanner now waits in
+  the annotation-sign state".
+* an undelivered EMPTY lexeme is possible and is not a loss of content: for `Description //x` the end of
+  input finds `AnnotationEnd, TextBegin, TextEnd`; the annotation is delivered, the empty Text lexeme
+  `(15,15)` stays in the queue because `Next` stops at `curIndex > dataSize`.  `clean_end_pending_empty`
+  states exactly this: what is pending at a clean end covers no byte of the file.
+* the run-level statements assume that the schema library delimits bodies inside the input
+  (`OracleInside`): a body reported longer than the rest of the file would end the byte loop with the Schema
+  lexeme open (see the `example` in `C14.lean`).
+-/
 namespace JSight.C14
 open JSight Gen ScanLex ScanTrivia
+open JSight.ScanSafe (Reach)
 
+/-! ## table facts (re-checked against the regenerated table on every run) -/
+
+/-- **(1)** every path through every state function (and through the state functions it continues in on the
+same byte) either ends in a diagnostic or accounts for the byte it reads: the byte lies in a lexeme, or it is
+a blank / line end / end-of-input marker, `'#'` entering the comment sub-machine, comment text, or an
+annotation delimiter (`ScanTrivia.doneOK`).  Checked with the certificate "which Begin is open in which
+state" of `ScanLex`. -/
 theorem silent_steps_are_trivia : ∀ st ∈ St.all, silentOK (code st) st = true := by decide +kernel
 
+/-- the states that can be on the step stack are no comment states, not the annotation-sign state, no
+end-of-input exception, and no lexeme is open in them; the scanner does not start in a comment / sign state -/
 theorem trivia_global : globalOK = true := by decide +kernel
 
+/-- **(3)** in every state in which a lexeme is open (certificate `ScanSafe.cert.oe` of C01), the leaf that
+the end-of-input byte selects first finds the End matching the open Begin, or is a diagnostic (possibly after
+continuing in another state function without finding anything) — except in the states of
+`eofExceptions`.  This is what defect F24 violated. -/
 theorem eof_closes_or_rejects : ∀ st ∈ St.all, eofOK (code st) st = true := by decide +kernel
+
+theorem mem_all' (st : St) : st ∈ St.all := ScanLex.St.mem_all st
+
+theorem trivia_facts : Facts :=
+  ⟨fun st => ScanLex.table_ok st (mem_all' st), fun st => silent_steps_are_trivia st (mem_all' st), trivia_global⟩
+
+/-! ## (2) one byte step -/
+
+/-- **(2)** For a configuration `sc` of a run (`Reach`) inside the file: if the byte step succeeds, moves
+forward, and the byte at `sc.cur` is then covered by no found event — neither by a completed item (Begin/End
+pair, context event) nor by a lexeme that is still open (`CovL`) — then that byte is `Skipped`: a blank, a
+line end, a comment start, comment text, or an annotation delimiter; or it is a `'/'` and the scanner now
+waits in the annotation-sign state (the next step decides: `'/'`, `'*'` make it a delimiter, anything else
+rewinds to it). -/
+theorem byteStep_skips_only_trivia {d : Src} {o : Oracle} {sc sc2 : Sc} (hR : Reach d o sc)
+    (hlt : sc.cur < d.size) (hs : byteStep d o sc = .ok sc2) (hadv : sc.cur < sc2.cur)
+    (hunc : ¬ CovL (Lof sc2) sc.cur) :
+    Skipped d o sc.cur ∨ (isSign sc2.step = true ∧ sc2.cur = sc.cur + 1 ∧ d.get sc.cur = 47) :=
+  step_skips trivia_facts hR hlt hs hadv hunc
+
+/-- the coverage invariant holds in every configuration of a run, for the lexemes delivered so far: every byte
+before `cur` lies in a delivered lexeme, is covered by a pending event, or is `Skipped` (or is the `'/'` the
+sign state waits on) -/
+theorem reach_coverage {d : Src} {o : Oracle} {sc : Sc} (hR : Reach d o sc) :
+    ∃ acc, TrInv d o acc sc := by
+  obtain ⟨h, acc, g⟩ := reach_G trivia_facts hR
+  exact ⟨acc, g.tr⟩
+
+/-! ## (3), (4) whole runs -/
+
+/-- **(3), run level.**  When the scan ends cleanly, whatever is still pending (the event stack and the
+queue of found events) covers no byte of the file: no unmatched Begin before the end of input, no undelivered
+non-empty lexeme. -/
+theorem clean_end_pending_empty (d : Src) (o : Oracle) (n : Nat) (hO : OracleInside d o)
+    (he : (lexAll d o n Sc.init []).2.1 = none) :
+    ∀ i, CovL (Lof (lexAll d o n Sc.init []).2.2) i → d.size ≤ i := by
+  obtain ⟨g0, q0⟩ := G.init (d := d) (o := o) trivia_facts
+  obtain ⟨h', acc', _, g, hfq⟩ := lexAll_tr trivia_facts n 0 [] Sc.init g0 q0 he
+  intro i hc
+  rcases final_cov g hfq hO i hc with h | h
+  · exact h
+  · exact absurd h (not_eofInException d o)
+
+/-- in particular: a Begin event that is still unmatched at a clean end was found at the end of input -/
+theorem clean_end_no_open_lexeme (d : Src) (o : Oracle) (n : Nat) (hO : OracleInside d o)
+    (he : (lexAll d o n Sc.init []).2.1 = none) (b : Evp)
+    (hb : lastOpen (Lof (lexAll d o n Sc.init []).2.2) = some b) : d.size ≤ b.2 :=
+  clean_end_pending_empty d o n hO he b.2 (.inr ⟨b, hb, Nat.le_refl _⟩)
+
+/-- **(4)** For a scan that ends cleanly, every byte position of the file lies in a returned lexeme
+`[b, e1)` or is `Skipped`: a blank, a line end, a comment start, comment text, or an annotation delimiter. -/
+theorem no_content_dropped (d : Src) (o : Oracle) (n : Nat) (hO : OracleInside d o)
+    (he : (lexAll d o n Sc.init []).2.1 = none) :
+    ∀ i, i < d.size → (∃ l ∈ (lexAll d o n Sc.init []).1, l.b ≤ i ∧ i < l.e1) ∨ Skipped d o i := by
+  obtain ⟨g0, q0⟩ := G.init (d := d) (o := o) trivia_facts
+  obtain ⟨h', acc', hacc, g, hfq⟩ := lexAll_tr trivia_facts n 0 [] Sc.init g0 q0 he
+  intro i hi
+  rcases final_bytes g hfq hO i hi with h | h | h
+  · exact .inl (by rw [hacc]; exact inLex_reverse.mpr h)
+  · exact .inr h
+  · exact absurd h (not_eofInException d o)
+
+/-- **(4) for `scanFile`**: the file is valid UTF-8 and the scan ends cleanly ⟹ every byte of the content
+lies in a returned lexeme or is skipped for a listed reason -/
+theorem scanFile_no_content_dropped (content : Bytes) (o : Oracle)
+    (hO : OracleInside (Src.ofArray content.toArray) o) (he : (scanFile content o).2.1 = none) :
+    ∀ i, i < content.length →
+      (∃ l ∈ (scanFile content o).1, l.b ≤ i ∧ i < l.e1) ∨ Skipped (Src.ofArray content.toArray) o i := by
+  unfold scanFile at he ⊢
+  split at he
+  · simp at he
+  · intro i hi
+    exact no_content_dropped _ o _ hO he i (by simpa [Src.ofArray] using hi)
+
+/-! ## the checks are sensitive -/
+
+-- a state function that swallows an `x` outside a lexeme is refused
+example : silentOK (.ifB [120] (.leaf [] .done) (code .stateExpectKeyword)) .stateExpectKeyword = false := by
+  decide +kernel
+-- entering the comment sub-machine on a byte other than '#' is refused
+example : silentOK (.ifB [120] (.leaf [.pushCur, .setStep .stateSingleComment] .done) (code .stateExpectKeyword))
+    .stateExpectKeyword = false := by decide +kernel
+-- closing a multi-line annotation two bytes back without `prevIsStar` is refused
+example : silentOK (.ifB [47] (.leaf [.found .annotationEnd 2, .popToStep] .done) (.leaf [] .done))
+    .stateMultilineAnnotation = false := by decide +kernel
+-- defect F24 (end of input inside a parenthesised description swallowed): refused by (1) and by (3)
+example : silentOK (.ifB [10, 13] (.leaf [.setStep .stateDescriptionTextBracketsInnerNewLine] .done) (.leaf [] .done))
+    .stateDescriptionTextBracketsInner = false := by decide +kernel
+example : eofOK (.ifB [10, 13] (.leaf [.setStep .stateDescriptionTextBracketsInnerNewLine] .done) (.leaf [] .done))
+    .stateDescriptionTextBracketsInner = false := by decide +kernel
 
 end JSight.C14
